@@ -188,9 +188,9 @@ func initChainSets(c *core.Ctx, initChain *ssa.Function, appT *types.Named, fiel
 						val = x.Val
 					}
 				case *ssa.Call:
-					if strings.HasPrefix(core.CalleeName(&x.Call), "sync/atomic.Store") && len(x.Call.Args) == 2 {
-						if fa, ok := x.Call.Args[0].(*ssa.FieldAddr); ok && fieldNameOf(fa) == field {
-							val = x.Call.Args[1]
+					if strings.HasPrefix(core.CalleeName(core.NormCall(&x.Call)), "sync/atomic.Store") && len(core.NormCall(&x.Call).Args) == 2 {
+						if fa, ok := core.NormCall(&x.Call).Args[0].(*ssa.FieldAddr); ok && fieldNameOf(fa) == field {
+							val = core.NormCall(&x.Call).Args[1]
 						}
 					}
 				}
